@@ -23,6 +23,17 @@ Two further families of (cheap) pool cases:
    calls repeated after the explicit ones.
 In every round trip the arguments of the saver must be left unchanged, and every array a loader returned is
 overwritten in place after it was checked (the next load of the same file must not see that).
+
+Calling conventions (the documented signatures are the public interface): next to the keyword calls every
+documented optional argument of the loaders is also passed BY POSITION in the documented order
+(load_signal(ffp, astype), load_sig(ffp, m), load_asig(ffp, load_label), load_asig(ffp, load_label, m)), one of
+the two options of load_asig is given alone, and every loader / saver is called with all arguments by their
+documented names (ffp=...).  These calls are made on every file of the label, container and load-factor cases
+and of the value words of length 1.
+
+Long records (one pool case per length): lengths B-2 .. B+2 around the sizes B a writer or reader working in
+blocks of lines would use (powers of ten and of two) and around 2*10000; deterministic content (all signs, the
+value alphabet interleaved with distinct multiples of 1/8), two savers x four loader calls, every value checked.
 """
 import atexit
 import multiprocessing
@@ -85,6 +96,16 @@ for _name, _make, _recs in CONTAINERS:
 SAVERS_REUSED = ('save_signal:Signal:reused', 'save_signal:AccSignal:reused')
 SCRIBBLE = -7.5                  # written into every array a loader returned, after it was checked
 
+# long records: lengths next to the block sizes B (lines per block) of a block-wise writer / reader; the file has
+# two lines more than the record has points, so B-2 .. B+2 covers a boundary before / after either header line
+LONG_BLOCKS = {'quick': (1000, 1024, 4096, 8192, 10000), 'thorough': (1000, 1024, 2048, 4096, 8192, 10000, 16384)}
+LONG_TWICE = 10000               # ... and the second boundary of this block size (2*B-2 .. 2*B+2)
+LONG_DTS = {'quick': (0.005,), 'thorough': (0.005, 1.5)}
+LONG_LABEL = 'my label'
+LONG_SAVERS = ('save_values_and_dt', 'save_signal:AccSignal')
+# savers called with every argument by its documented name (container cases)
+SAVERS_KEYWORDS = ('save_values_and_dt:keywords', 'save_signal:AccSignal:keywords')
+
 DT_TOL = 0.5e-4 + 1e-12          # "the same time step to 4 decimals"
 V_HALF = 0.5e-6 * (1 + 1e-9)     # "the same values to 6 decimals"
 
@@ -129,6 +150,10 @@ def build(tier, seed):
         for dt in LABEL_DTS:
             n_m += 1
             cases.append({'kind': 'm', 'w': [VALUES[i] for i in w], 'dt': dt})
+    long_ns = _long_lengths(tier)
+    for n in long_ns:
+        for dt in LONG_DTS[tier]:
+            cases.append({'kind': 'long', 'n': n, 'dt': dt})
     return {
         'cases': cases,
         'rule': 'value cases: all value words of length 1..%d over the 7-value alphabet x %d time steps (one pool case '
@@ -145,14 +170,25 @@ def build(tier, seed):
                 'calls (the 15 and the default-option load_sig / load_asig repeated at the end).  load-factor cases: '
                 'all %d (value word of length <= %d, dt) x 3 savers x load_sig / load_asig (load_label F,T) with m in '
                 '%s next to the 15 + 2 calls.  Every returned array is overwritten after its check; the saver must '
-                'leave its arguments unchanged'
+                'leave its arguments unchanged.  calling conventions: on every file of the label / container / '
+                'load-factor cases and of the value words of length 1 additionally load_signal(ffp, astype), '
+                'load_sig(ffp, m), load_asig(ffp, load_label), load_asig(ffp, load_label, m) with the options BY '
+                'POSITION (all astype / m / load_label values of the keyword calls), load_asig with one option alone, '
+                'and every loader with all arguments by name (ffp=...); container cases also through the savers '
+                'called with all arguments by name.  long-record cases: %d lengths (B-2..B+2 for block sizes B in %s '
+                'and around 2*%d) x dt in %s x savers %s x 4 loader calls; non-trivial = every long record'
                 % (L, len(DTS), n_lab, LL, len(LABEL_RECORDS), len(LABEL_DTS), len(CONTAINERS), list(LABEL_DTS),
-                   n_m, M_MAX_LEN, list(MS_EXTRA)),
+                   n_m, M_MAX_LEN, list(MS_EXTRA), len(long_ns), list(LONG_BLOCKS[tier]), LONG_TWICE,
+                   list(LONG_DTS[tier]), list(LONG_SAVERS)),
         'bounds': {'values': VALUES, 'max_len': L, 'dt': DTS, 'labels': LABELS, 'm': MS, 'savers': SAVERS,
                    'label_alphabet': LABEL_ALPHABET, 'label_max_len': LL, 'label_records': LABEL_RECORDS,
                    'label_dt': LABEL_DTS, 'm_next_to_one_and_extreme': MS_EXTRA, 'm_extra_max_len': M_MAX_LEN,
                    'containers': [[name, [list(rec) for rec in recs]] for name, make, recs in CONTAINERS],
-                   'container_dt': LABEL_DTS, 'container_savers': list(SAVERS) + list(SAVERS_REUSED),
+                   'container_dt': LABEL_DTS,
+                   'container_savers': list(SAVERS) + list(SAVERS_REUSED) + list(SAVERS_KEYWORDS),
+                   'long_record_lengths': long_ns, 'long_record_dt': LONG_DTS[tier], 'long_record_savers': LONG_SAVERS,
+                   'calling_conventions': ['keywords for the options (all cases)', 'options by position',
+                                           'one option of load_asig alone', 'all arguments by name'],
                    'loaders': ['load_values_and_dt', 'load_signal(astype=signal)', 'load_signal(astype=acc_sig)',
                                'load_signal()', 'load_sig', 'load_asig']},
         'required_classes': ['dt>=1', 'dt<1', 'one-sample', 'multi-sample', 'label-plain', 'label-space',
@@ -165,7 +201,10 @@ def build(tier, seed):
                              'container-int16', 'container-uint8', 'container-list-float', 'container-list-int',
                              'container-tuple-float', 'container-tuple-int', 'value-beyond-6-decimals-exact',
                              'm-next-to-one', 'm-tiny', 'm-huge', 'm-next-to-one-visible',
-                             'default-after-explicit', 'result-overwritten', 'saver-arguments-unchanged'],
+                             'default-after-explicit', 'result-overwritten', 'saver-arguments-unchanged',
+                             'call-options-by-position', 'call-positional-label-requested',
+                             'call-positional-m-scaled', 'call-one-option-alone', 'call-all-arguments-by-name',
+                             'saver-all-arguments-by-name', 'long-record', 'long-record-over-10000-lines'],
         'assumptions': ['values outside the 7-value alphabet, records longer than the bound, dt and labels outside '
                         'the menus are not examined',
                         'labels are single-line strings (the format stores the label on one line)',
@@ -178,6 +217,12 @@ def build(tier, seed):
                         '"to 6 decimals": the file holds the value rounded to 6 decimals, reading it gives the nearest '
                         'double, multiplying by m rounds once more: |v\' - m v| <= |m| (0.5e-6 + ulp(v)/2) + 1.5 ulp(m v) '
                         '(last term only when m is not +-1).  A double with ulp > 1e-6 therefore loads back exactly',
+                        'the documented signatures load_signal(ffp, astype), load_sig(ffp, m), load_asig(ffp, load_label, '
+                        'm), save_values_and_dt(ffp, values, dt, label), save_signal(ffp, signal) are the public '
+                        'interface: an option passed by position in the documented order, or any argument passed by its '
+                        'documented name, means the same as in the keyword calls',
+                        'long records: v_i = alphabet value (i // 3) mod 7 when i is a multiple of 3, else '
+                        '((7919 i) mod 20011 - 10005) / 8 (distinct for i < 20011, exact in 6 decimals)',
                         'a record handed over in a narrower type (float32, float16, integers, Python numbers) is the '
                         'sequence of the exact values of its elements; nothing is assumed about the dtype the loader '
                         'returns',
@@ -187,9 +232,25 @@ def build(tier, seed):
     }
 
 
-def _loaders(n_m=MS, trailing_defaults=False):
+def _long_lengths(tier):
+    ns = set()
+    for b in LONG_BLOCKS[tier] + (2 * LONG_TWICE,):
+        ns.update(range(b - 2, b + 3))
+    return sorted(ns)
+
+
+def _long_record(n):
+    """Deterministic long record: every third sample runs through the value alphabet, the others are distinct
+    multiples of 1/8 of both signs (a dropped, repeated or merged line shows at every later index)."""
+    return [float(VALUES[(i // 3) % len(VALUES)]) if i % 3 == 0 else ((7919 * i) % 20011 - 10005) / 8.0
+            for i in range(n)]
+
+
+def _loaders(n_m=MS, trailing_defaults=False, conventions=False):
     """(name, extra sub fields, callable(ffp), wanted class or None, m factor, label requested).
-    trailing_defaults: the default-option calls of load_sig / load_asig once more after all explicit ones."""
+    trailing_defaults: the default-option calls of load_sig / load_asig once more after all explicit ones.
+    conventions: additionally the options by position (documented order), one option of load_asig alone, and all
+    arguments by their documented names."""
     out = [('load_values_and_dt', {}, lambda f: loader.load_values_and_dt(f), None, 1.0, False),
            ('load_signal', {'astype': 'signal'}, lambda f: loader.load_signal(f, astype='signal'), 'Signal', 1.0, False),
            ('load_signal', {'astype': 'acc_sig'}, lambda f: loader.load_signal(f, astype='acc_sig'), 'AccSignal', 1.0,
@@ -203,11 +264,49 @@ def _loaders(n_m=MS, trailing_defaults=False):
         for m in n_m:
             out.append(('load_asig', {'m': m, 'load_label': ll},
                         (lambda f, m=m, ll=ll: loader.load_asig(f, load_label=ll, m=m)), 'AccSignal', m, ll))
+    if conventions:
+        pos = {'call': 'options by position'}
+        out.append(('load_signal', dict(pos, astype='signal'), lambda f: loader.load_signal(f, 'signal'), 'Signal', 1.0,
+                    False))
+        out.append(('load_signal', dict(pos, astype='acc_sig'), lambda f: loader.load_signal(f, 'acc_sig'), 'AccSignal',
+                    1.0, False))
+        for m in n_m:
+            out.append(('load_sig', dict(pos, m=m), (lambda f, m=m: loader.load_sig(f, m)), 'Signal', m, False))
+        for ll in (False, True):
+            out.append(('load_asig', dict(pos, m=None, load_label=ll), (lambda f, ll=ll: loader.load_asig(f, ll)),
+                        'AccSignal', 1.0, ll))
+            for m in n_m:
+                out.append(('load_asig', dict(pos, m=m, load_label=ll),
+                            (lambda f, m=m, ll=ll: loader.load_asig(f, ll, m)), 'AccSignal', m, ll))
+        one = {'call': 'one option alone'}
+        out.append(('load_asig', dict(one, m=None, load_label=True), lambda f: loader.load_asig(f, load_label=True),
+                    'AccSignal', 1.0, True))
+        for m in n_m:
+            out.append(('load_asig', dict(one, m=m, load_label=None), (lambda f, m=m: loader.load_asig(f, m=m)),
+                        'AccSignal', m, False))
+        byname = {'call': 'all arguments by name'}
+        m2 = n_m[1] if len(n_m) > 1 else n_m[0]
+        out.append(('load_values_and_dt', dict(byname), lambda f: loader.load_values_and_dt(ffp=f), None, 1.0, False))
+        out.append(('load_signal', dict(byname, astype='acc_sig'), lambda f: loader.load_signal(astype='acc_sig', ffp=f),
+                    'AccSignal', 1.0, False))
+        out.append(('load_sig', dict(byname, m=m2), (lambda f: loader.load_sig(m=m2, ffp=f)), 'Signal', m2, False))
+        out.append(('load_asig', dict(byname, m=m2, load_label=True),
+                    (lambda f: loader.load_asig(m=m2, load_label=True, ffp=f)), 'AccSignal', m2, True))
     if trailing_defaults:
         out.append(('load_sig', {'m': None, 'after': 'explicit calls'}, lambda f: loader.load_sig(f), 'Signal', 1.0, False))
         out.append(('load_asig', {'m': None, 'load_label': None, 'after': 'explicit calls'},
                     lambda f: loader.load_asig(f), 'AccSignal', 1.0, False))
     return out
+
+
+def _long_loaders():
+    m = MS[1]
+    return [('load_values_and_dt', {}, lambda f: loader.load_values_and_dt(f), None, 1.0, False),
+            ('load_signal', {'astype': 'acc_sig'}, lambda f: loader.load_signal(f, astype='acc_sig'), 'AccSignal', 1.0,
+             False),
+            ('load_sig', {'m': None}, lambda f: loader.load_sig(f), 'Signal', 1.0, False),
+            ('load_asig', {'m': m, 'load_label': True}, lambda f: loader.load_asig(f, load_label=True, m=m),
+             'AccSignal', m, True)]
 
 
 def _state(obj):
@@ -235,10 +334,16 @@ def _save(saver, ffp, w, dt, label, container='float64'):
         else:
             sig = cls(vals, dt, label=label)
         before = _state(sig)
-        loader.save_signal(ffp, sig)
+        if parts[-1] == 'keywords':
+            loader.save_signal(signal=sig, ffp=ffp)
+        else:
+            loader.save_signal(ffp, sig)
         return before, _state(sig)
     before = _state(vals)
-    loader.save_values_and_dt(ffp, vals, dt, label)
+    if parts[-1] == 'keywords':
+        loader.save_values_and_dt(label=label, dt=dt, values=vals, ffp=ffp)
+    else:
+        loader.save_values_and_dt(ffp, vals, dt, label)
     return before, _state(vals)
 
 
@@ -252,6 +357,26 @@ def _check_values(r, sub, got, w, m):
     if g.shape != (len(w),):
         return r.fail('values', sub, 'values have shape %s, expected (%d,)' % (g.shape, len(w)), observed=got,
                       expected=want)
+    if len(w) > 64:
+        # long records: the same bound, evaluated with array operations
+        wa = np.array(w, dtype=float)
+        ga = g.astype(float)
+        if not np.all(np.isfinite(ga)):
+            i = int(np.argmax(~np.isfinite(ga)))
+            return r.fail('values', sub, 'non-finite value at index %d' % i, observed=ga[max(0, i - 2):i + 3],
+                          expected=want[max(0, i - 2):i + 3])
+        tol = abs(m) * (V_HALF + 0.5 * np.spacing(np.abs(wa)))
+        if abs(m) != 1:
+            tol = tol + 1.5 * np.spacing(np.abs(m * wa))
+        d = np.abs(ga - m * wa)
+        ratio = d / tol
+        i = int(np.argmax(ratio))
+        if ratio[i] > 1.0:
+            return r.fail('values', sub, 'values differ from m*v by %.3g x the 6-decimal tolerance, first at index %d'
+                          % (float(ratio[i]), int(np.argmax(ratio > 1.0))), err=float(ratio[i]),
+                          observed=ga[max(0, i - 2):i + 3], expected=want[max(0, i - 2):i + 3])
+        r.cls('value-exact' if not d.any() else 'value-rounded')
+        return True
     worst = 0.0
     exact = True
     for i, v in enumerate(w):
@@ -309,13 +434,15 @@ def _overwrite(r, arr):
         pass
 
 
-def _round_trip(r, ffp, loaders, w, dt, label, saver, container='float64'):
-    """One real file: written with `saver`, read back through every loader call, removed."""
+def _round_trip(r, ffp, loaders, w, dt, label, saver, container='float64', ident=None):
+    """One real file: written with `saver`, read back through every loader call, removed.
+    ident: identification of the record in the violation keys when the record itself is too long for that."""
     classes = {'Signal': eqsig.Signal, 'AccSignal': eqsig.AccSignal}
     n = len(w)
-    r.cls('saver-reused-object' if saver.endswith(':reused') else
+    r.cls('saver-reused-object' if saver.endswith(':reused') else 'saver-all-arguments-by-name'
+          if saver.endswith(':keywords') else
           {'save_signal:Signal': 'saver-Signal', 'save_signal:AccSignal': 'saver-AccSignal'}.get(saver, 'saver-values'))
-    fsub = {'w': w, 'dt': dt, 'label': label, 'saver': saver}
+    fsub = dict(ident if ident is not None else {'w': w}, dt=dt, label=label, saver=saver)
     if container != 'float64':
         fsub['container'] = container
         r.cls('container-' + container)
@@ -335,6 +462,15 @@ def _round_trip(r, ffp, loaders, w, dt, label, saver, container='float64'):
             sub.update(extra)
             r.states += 1
             r.transitions += 1
+            conv = extra.get('call')
+            if conv == 'options by position':
+                r.cls('call-options-by-position')
+                if want_label and label != 'm1':
+                    r.cls('call-positional-label-requested')
+                if abs(m) != 1 and any(w):
+                    r.cls('call-positional-m-scaled')
+            elif conv:
+                r.cls('call-one-option-alone' if conv == 'one option alone' else 'call-all-arguments-by-name')
             if extra.get('m', 1.0) is None or name in ('load_values_and_dt', 'load_signal'):
                 r.cls('m-default')
                 if extra.get('after'):
@@ -361,7 +497,7 @@ def _round_trip(r, ffp, loaders, w, dt, label, saver, container='float64'):
                 except Exception:
                     shp = None
                 r.expect('npts', sub, shp == (n,), 'values have shape %s, expected (%d,): number of points '
-                         'not preserved' % (shp, n), observed=vals, expected=w)
+                         'not preserved' % (shp, n), observed=shp if n > 64 else vals, expected=[n] if n > 64 else w)
                 _check_dt(r, sub, dt2, dt)
                 _check_values(r, sub, vals, w, 1.0)
                 _overwrite(r, vals)
@@ -423,7 +559,20 @@ def _value_classes(r, w, dt):
 def run_case(case):
     r = Res()
     ffp = os.path.join(_scratch(), 'c.txt')
-    loaders = _loaders()
+    if case.get('kind') == 'long':
+        n = int(case['n'])
+        dt = float(case['dt'])
+        w = _long_record(n)
+        r.nontrivial += 1
+        r.cls('long-record')
+        if n + 2 > 10000:
+            r.cls('long-record-over-10000-lines')
+        _value_classes(r, w, dt)
+        _label_classes(r, LONG_LABEL)
+        for saver in LONG_SAVERS:
+            _round_trip(r, ffp, _long_loaders(), w, dt, LONG_LABEL, saver, ident={'record': 'long', 'n': n})
+        return r
+    loaders = _loaders(conventions=True)
     if case.get('kind') == 'label':
         label = str(case['label'])
         if ' ' in label:
@@ -439,13 +588,13 @@ def run_case(case):
     if case.get('kind') == 'container':
         name = case['container']
         dt = float(case['dt'])
-        loaders = _loaders(trailing_defaults=True)
+        loaders = _loaders(trailing_defaults=True, conventions=True)
         for rec in dict((c[0], c[2]) for c in CONTAINERS)[name]:
             w = [float(v) for v in rec]
             r.nontrivial += 1
             _value_classes(r, w, dt)
             _label_classes(r, LABELS[0])
-            for saver in SAVERS + SAVERS_REUSED:
+            for saver in SAVERS + SAVERS_REUSED + SAVERS_KEYWORDS:
                 _round_trip(r, ffp, loaders, w, dt, LABELS[0], saver, container=name)
         return r
     w = [float(v) for v in case['w']]
@@ -454,11 +603,13 @@ def run_case(case):
         r.nontrivial += 1
     _value_classes(r, w, dt)
     if case.get('kind') == 'm':
-        loaders = _loaders(n_m=MS + MS_EXTRA, trailing_defaults=True)
+        loaders = _loaders(n_m=MS + MS_EXTRA, trailing_defaults=True, conventions=True)
         _label_classes(r, LABELS[0])
         for saver in SAVERS:
             _round_trip(r, ffp, loaders, w, dt, LABELS[0], saver)
         return r
+    if len(w) > 1:
+        loaders = _loaders()        # the calling conventions are exercised on the words of length 1 (and elsewhere)
     for label in LABELS:
         _label_classes(r, label)
         for saver in SAVERS:
@@ -471,20 +622,30 @@ def snippet(case, v):
     return ("import numpy as np, eqsig, tempfile, os\nfrom eqsig import loader\n"
             "sub = %r\n"
             "ffp = os.path.join(tempfile.mkdtemp(), 'c.txt')\n"
+            "A = (0.0, 1.5, -2.25, 1e6, -1e-6, 123456.789012, 0.0000005)\n"
+            "if sub.get('record') == 'long':\n"
+            "    sub['w'] = [A[(i // 3) %% 7] if i %% 3 == 0 else ((7919 * i) %% 20011 - 10005) / 8.0 for i in range(sub['n'])]\n"
             "vals = np.array(sub['w'], float)\n"
             "c = sub.get('container', 'float64').split('-')\n"
             "if c[0] in ('list', 'tuple'): vals = {'list': list, 'tuple': tuple}[c[0]]({'float': float, 'int': int}[c[1]](v) for v in sub['w'])\n"
             "elif c[0] != 'float64': vals = np.array([int(v) for v in sub['w']] if 'int' in c[0] else sub['w'], dtype=c[0])\n"
             "if sub['saver'] == 'save_values_and_dt': loader.save_values_and_dt(ffp, vals, sub['dt'], sub['label'])\n"
+            "elif sub['saver'] == 'save_values_and_dt:keywords':\n"
+            "    loader.save_values_and_dt(label=sub['label'], dt=sub['dt'], values=vals, ffp=ffp)\n"
             "else:\n"
             "    cls = getattr(eqsig, sub['saver'].split(':')[1])\n"
             "    sig = cls(vals, sub['dt'], label=sub['label'])\n"
             "    if sub['saver'].endswith(':reused'):   # the object held a longer record before\n"
             "        sig = cls(np.array([9.5, -9.5] * (len(vals) // 2 + 2)), sub['dt'], label=sub['label'])\n"
             "        sig.time; getattr(sig, 'velocity', None); sig.reset_values(vals)\n"
-            "    loader.save_signal(ffp, sig)\n"
-            "print(repr(open(ffp).read()))\n"
+            "    if sub['saver'].endswith(':keywords'): loader.save_signal(signal=sig, ffp=ffp)\n"
+            "    else: loader.save_signal(ffp, sig)\n"
+            "print(repr(open(ffp).read()[:400]))\n"
+            "fn = getattr(loader, sub.get('loader', 'load_values_and_dt'))\n"
             "kw = {k: sub[k] for k in ('astype', 'm', 'load_label') if sub.get(k) is not None}\n"
-            "out = getattr(loader, sub.get('loader', 'load_values_and_dt'))(ffp, **kw)\n"
+            "if sub.get('call') == 'options by position':   # documented order: (ffp, astype) / (ffp, m) / (ffp, load_label, m)\n"
+            "    out = fn(ffp, *[sub[k] for k in ('astype', 'load_label', 'm') if sub.get(k) is not None])\n"
+            "elif sub.get('call') == 'all arguments by name': out = fn(ffp=ffp, **kw)\n"
+            "else: out = fn(ffp, **kw)\n"
             "print(type(out).__name__, out if not hasattr(out, 'values') else (out.npts, out.dt, out.label, out.values))\n"
             "os.remove(ffp); os.rmdir(os.path.dirname(ffp))\n" % (sub,))
